@@ -124,6 +124,35 @@ def run_model(runner, cfg, tier, name="mcstack", depth=4):
     return frames, res
 
 
+def simulate_model(workdir_name, frames_count, num=200, depth=60):
+    """Random long behaviours of the same model (TLC -simulate): returns the maximal frame-index
+    sequences.  Uses the files written by run_model() in its work directory."""
+    workdir = os.path.join(tv.WORK, workdir_name)
+    env = {"FRAMES": os.path.join(workdir, "frames.ndjson"), "COOKIES": os.path.join(workdir, "cookies.ndjson"),
+           "MCCFG": os.path.join(workdir, "mccfg.ndjson"), "MCDEPTH": str(depth), "JAVA_TOOL_OPTIONS": "-Xss256m"}
+    rc, out = tv.run_tlc(workdir, "MCStack.tla", "MCStack.cfg", env, workers=4, xmx="4g", timeout=1500,
+                         extra=["-simulate", "num=%d" % num, "-depth", str(depth + 2)])
+    hs = set()
+    for t in tv.tlc_tuples(out):
+        mm = BEH_RE.match(t)
+        if mm:
+            hs.add(tuple(int(x) for x in mm.group(1).split(",") if x.strip()))
+    if "Error:" in out and "violated" in out:
+        raise tv.ToolError("the reference model fails in simulation; see TLC output in %s" % workdir)
+    # keep only maximal behaviours (those that are not a proper prefix of another)
+    prefixes = set()
+    for h in hs:
+        for k in range(len(h)):
+            prefixes.add(h[:k])
+    return sorted(h for h in hs if h not in prefixes and len(h) > 4)
+
+
+def replay_long(runner, cfg, frames, behaviours):
+    for h in behaviours:
+        s = runner.session(cfg, "replay of a simulated model behaviour of %d steps" % len(h))
+        s.send([frames[i - 1] for i in h])
+
+
 def replay_behaviours(runner, cfg, frames, behaviours, tier, r):
     """Each behaviour (sequence of frame indices reaching a distinct model state) is executed
     on the real code and extended by every frame of the domain in turn (bounded in the quick
